@@ -122,8 +122,10 @@ template<class F> Child in_child(F&& f) {
 	int fd[2]; if(pipe(fd) != 0) { std::exit(3); }
 	char errpath[] = "/dev/shm/vp_c13_XXXXXX"; int efd = mkstemp(errpath);
 	std::fflush(nullptr);
-	pid_t pid = fork();
+	pid_t pid = vp::fork_retry();
+	if(pid < 0) { close(fd[0]); close(fd[1]); if(efd >= 0) { close(efd); unlink(errpath); } throw vp::Inconclusive{"fork failed"}; }
 	if(pid == 0) {
+		vp::detach_crash_reporting();
 		close(fd[0]); if(efd >= 0) { dup2(efd, 2); } alarm(30);
 		std::string r; int code = 0;
 		try { r = f(); code = r.empty() ? 0 : 1; } catch(vp::Fail const& e) { r = e.key + ": " + e.msg; code = 1; } catch(std::exception const& e) { r = std::string("exception: ") + e.what(); code = 2; } catch(...) { r = "unknown exception"; code = 2; }
@@ -131,7 +133,8 @@ template<class F> Child in_child(F&& f) {
 	}
 	close(fd[1]);
 	std::string pay; char buf[4096]; ssize_t k; while((k = read(fd[0], buf, sizeof buf)) > 0) { pay.append(buf, static_cast<std::size_t>(k)); } close(fd[0]);
-	int st = 0; waitpid(pid, &st, 0);
+	int st = 0; pid_t wr; do { wr = waitpid(pid, &st, 0); } while(wr < 0 && errno == EINTR);
+	if(wr != pid || (WIFSIGNALED(st) && WTERMSIG(st) == SIGALRM)) { if(efd >= 0) { close(efd); unlink(errpath); } throw vp::Inconclusive{wr != pid ? "waitpid failed" : "the forked case did not finish within 30 s (load)"}; }
 	std::string err; if(efd >= 0) { lseek(efd, 0, SEEK_SET); while((k = read(efd, buf, sizeof buf)) > 0 && err.size() < 5000) { err.append(buf, static_cast<std::size_t>(k)); } close(efd); unlink(errpath); }
 	if(WIFEXITED(st) && WEXITSTATUS(st) <= 2) { return Child{WEXITSTATUS(st), pay}; }
 	bool const sanit = err.find("Sanitizer") != std::string::npos || err.find("runtime error:") != std::string::npos;
